@@ -197,7 +197,7 @@ def _mk_args(rng, ctr, params, p, keys):
     for i in range(p):
         a = params[i].get("ann") if i < len(params) else None
         pos.append(ctr.fresh(rng, a))
-    ks = list(keys)
+    ks = sorted(keys)  # sets of strings iterate in hash order: sort first for a seeded, reproducible case
     rng.shuffle(ks)
     return [pos, {k: ctr.fresh(rng, ann.get(k)) for k in ks}]
 
@@ -357,7 +357,7 @@ def gen_xf_case(rng, tier, idx, kind=None, n=None):
         else:
             spec = []
             for x in names:
-                ann = rng.choice([None, "int", "str", "list"])
+                ann = rng.choice([None, "int", "str", "bool"])  # the specification must be hashable
                 spec.append([x, ann, ctr.fresh(rng, ann) if rng.random() < 0.4 else None])
             case["spec"] = spec
             case["spec_form"] = "dict"
@@ -420,6 +420,7 @@ def gen_xf_case(rng, tier, idx, kind=None, n=None):
                 fields.append([x, ann, k, ctr.fresh(rng, ann)])
         case["fields"] = fields
         case["already"] = rng.random() < 0.5
+        case["how"] = rng.choice(["decorator", "decorator", "prior"])
         params = [{"name": x, "ann": a, "default": d} for x, a, _k, d in fields]
         case["runs"] = [gen_run(rng, ctr, params) for _ in range(nruns)]
     return case
@@ -462,6 +463,9 @@ def corpus():
            "runs": [{"inst": [["i5"], {}], "call": [[], {}]}]}
     yield {"kind": "dc", "id": "c-dc2", "n": 2, "api": "class", "already": True,
            "fields": [["x", "int", "v", "i0"], ["z", "list", "f", "list(i1,i2)"]],
+           "runs": [{"inst": [[], {}], "call": [[], {}]}]}
+    yield {"kind": "dc", "id": "c-dc4", "n": 1, "api": "helper", "already": True, "how": "prior",
+           "fields": [["z", "list", "f", "list(i1,i2)"]],
            "runs": [{"inst": [[], {}], "call": [[], {}]}]}
     yield {"kind": "dc", "id": "c-dc3", "n": 2, "api": "class", "already": False,
            "fields": [["x", "int", "v", "i0"], ["z", "list", "f", "list(i1,i2)"]],
@@ -575,7 +579,12 @@ def dc_source(case, h):
         out.append("")
         return out
 
-    lines += cls(f"D_{h}", case["already"])
+    # one class object per use (class-level preview + one per run when the instantiating helper is used): handing
+    # the SAME class to the node factory twice is the `prior` way of being "already a dataclass"
+    ncls = len(case["runs"]) + 1 if case["api"] == "helper" else 1
+    deco = case["already"] and case.get("how", "decorator") == "decorator"
+    for i in range(ncls):
+        lines += cls(f"D_{h}_{i}", deco)
     lines += cls(f"B_{h}", True)
     return "\n".join(lines)
 
@@ -655,7 +664,7 @@ def _reference(sig_params, a1, k1, a2, k2):
     sig = inspect.Signature([
         P(name, P.POSITIONAL_OR_KEYWORD, **({} if dflt is inspect.Parameter.empty else {"default": dflt}))
         for name, dflt in sig_params
-    ])
+    ], __validate_parameters__=False)
     try:
         b1 = sig.bind_partial(*a1, **k1).arguments
     except TypeError:
@@ -785,14 +794,20 @@ def _run(case, h, modname, variant):
                 f.write(dc_source(case, h))
             importlib.invalidate_caches()
             mod = importlib.import_module(modname)
-            D, B = getattr(mod, f"D_{h}"), getattr(mod, f"B_{h}")
+            B = getattr(mod, f"B_{h}")
+            ncls = len(case["runs"]) + 1 if case["api"] == "helper" else 1
+            Ds = [getattr(mod, f"D_{h}_{i}") for i in range(ncls)]
+            if case["already"] and case.get("how", "decorator") == "prior":
+                for D in Ds:
+                    T.as_dataclass_node(D)  # an earlier use of the same class (node class thrown away)
             ref_params = [(x, E if k == "n" else val(d)) for x, _a, k, d in case["fields"]]
             ref_fn = lambda m: B(**m)  # noqa: E731
             if case["api"] == "helper":
-                make_inst = lambda a, k: T.dataclass_node(D, True, *a, **k)  # noqa: E731
-                cls = type(make_inst([], {}))
+                cls = type(T.dataclass_node(Ds[0], True))
+                use = iter(Ds[1:])
+                make_inst = lambda a, k: T.dataclass_node(next(use), True, *a, **k)  # noqa: E731
             else:
-                cls = T.as_dataclass_node(D)
+                cls = T.as_dataclass_node(Ds[0])
                 make_inst = lambda a, k: cls(*a, **k)  # noqa: E731
         prev = cls.preview_io()
     except Exception as e:  # noqa: BLE001
@@ -829,7 +844,8 @@ def _run(case, h, modname, variant):
         else:
             labels = [r[1] for r in case["rets"]]
         if case["ret_ann"] is None:
-            hints = [None] * len(labels)
+            # a function without return value: the single output "None" is hinted NoneType
+            hints = [type(None)] if (nvals == 0 and case["declared"] is None) else [None] * len(labels)
         else:
             x = eval(case["ret_ann"], ns)
             x = type(None) if x is None else x
